@@ -41,11 +41,11 @@ func TestVX_C04Cold(t *testing.T) {
 	if vx.ColdChild(entries) {
 		return
 	}
-	r := vx.Begin("C04", "cold-start", "each entry point (SumSM3; New+Write+Sum; zero-value SM3 + Reset + Write + Sum; New+Reset+split Write+Sum) as the FIRST use of package sm3 in a fresh process: alone, and by 8 goroutines released together in 6 (thorough 30) fresh processes; oracle sm3ref")
+	r := vx.Begin("C04", "cold-start", "each entry point (SumSM3; New+Write+Sum; zero-value SM3 + Reset + Write + Sum; New+Reset+split Write+Sum) as the FIRST use of package sm3 in a fresh process: alone, and by 8 goroutines released together in 20 (thorough 60) fresh processes; oracle sm3ref")
 	defer r.End()
-	procs := 6
+	procs := 20
 	if vx.Thorough() {
-		procs = 30
+		procs = 60
 	}
 	vx.ColdCheck(r, "TestVX_C04Cold", entries, want, 8, procs)
 }
